@@ -197,6 +197,10 @@ def gen_reply_case(rnd, prev_key16):
         reply = rnd.choice([b"\r\n\r\n", b"HTTP/1.1\r\n\r\n", b"hello world\r\n\r\n", b"HTTP/1.1 abc Switching\r\n\r\n", b"\x00\xff\xfe\r\n\r\n"])
         expect = "rejected"
     stream = reply + ref6455.encode_frame(1, b"first")
+    if big_cut is None and kind not in ("big_unterminated", "garbage") and rnd.random() < 0.08:
+        # a lot of frame data right behind the reply, in the same read: it is not part of the header block
+        stream += ref6455.encode_frame(2, b"\x00" * rnd.choice([17000, 30000]))
+        big_cut = "one"
     if big_cut == "one":
         chunks = [stream]
     elif big_cut == "tail":
